@@ -532,15 +532,17 @@ class World:
         return g
 
     def drain(self, limit=8):
-        """Run the jobs a previous job enqueued (rebuild_queues wakes pull requests up)."""
-        res = []
+        """Run all the jobs a previous job enqueued (rebuild_queues wakes pull requests up)."""
+        return list(self.drain_iter(limit))
+
+    def drain_iter(self, limit=8):
+        """Same, one at a time: a generator, so that the caller can observe the world between two of them."""
         while self.berte.task_queue.qsize() and limit:
             limit -= 1
             self.trace, self.ops, self.fault = [], [], None
             with Recorder(self):
                 job = self.berte.process_task()
-            res.append({'job': str(job), 'status': job.status, 'trace': self.trace, 'ops': self.ops})
-        return res
+            yield {'job': str(job), 'status': job.status, 'trace': self.trace, 'ops': self.ops}
 
 
 # ---------------------------------------------------------------------------------- recording / faults
